@@ -128,6 +128,11 @@ func (w *Watcher) getGovernanceEventsByTxId(
 		if event.EventIndex != WormholeMessageEventIndex {
 			continue
 		}
+		// A transaction can emit events from any contract, and the node keeps the events of orphaned
+		// blocks: only events of the governance contract in the block whose canonicity is checked count.
+		if event.ContractAddress != address || event.BlockHash != blockHash {
+			continue
+		}
 
 		header, err := client.GetBlockHeader(ctx, event.BlockHash)
 		if err != nil {
